@@ -293,7 +293,11 @@ class Path:
         """Add an instance of a *definitional* axiom (spec function unfolding, floor/sqrt law).
         Sound because it is an instance of a definition/theorem; recorded for the evidence."""
         self.definitions.add(what)
+        before = len(self.pc)
         self.assume(axiom_instance)
+        if not hasattr(self, "defined_idx"):
+            self.defined_idx = set()
+        self.defined_idx.update(range(before, len(self.pc)))
 
     def branch(self, cond):
         """Decide a symbolic condition; schedules the alternative when both sides are feasible."""
